@@ -23,10 +23,10 @@ theorem undoCall_step (resolve : Resolver) (newer : Log) (T : Txn) (older : Log)
       | .refuse => False) ∧
     (∀ oid, oid ∉ T.oids →
       dataOf (S' ++ flat (newer ++ T :: older)) oid = dataOf (S ++ flat (newer ++ T :: older)) oid) := by
-  obtain ⟨N, h1, h2, h3, _, h5, h6, h7⟩ := undoCall_ok resolve hInv hS h
+  obtain ⟨N, h1, h2, h3, h4, h5, h6, h7⟩ := undoCall_ok resolve hInv hS h
   refine ⟨h3, h6, ?_, ?_⟩
   · intro oid ho
-    have hd := undoLoop_data resolve hInv hS ho
+    have hd := undoLoop_data resolve hInv h4 hS ho
     simp only at hd
     rw [h1, h5]
     cases hv : verdictFor resolve (S ++ flat (newer ++ T :: older)) T older oid with
@@ -111,8 +111,8 @@ theorem undoAll_newest_first (resolve : Resolver) (older : Log) (utid : Nat) :
       by_cases hT : oid ∈ T.oids
       · refine ⟨fun _ => ?_, fun hn => ?_⟩
         · obtain ⟨r, k, hn⟩ := newestFor_isSome_of_mem hT
-          have hctx := newest_ctx hInv' hn
-          have hrec := undoRecord_ctx resolve hInv' hS hn
+          have hctx := newest_ctx hInv' (hp T List.mem_cons_self) hn
+          have hrec := undoRecord_ctx resolve hInv' (hp T List.mem_cons_self) hS hn
           rw [hsame oid] at hrec
           have hf := (undoLoop_spec resolve S (flat (done ++ T :: (todo ++ older))) utid
             (flat (todo ++ older)).length oid T.recs r k hn).2 _ hrec
